@@ -123,6 +123,63 @@ class Margin:
         return x > thr
 
 
+def strict_class(all_res, donor_res, acceptor_res, oxygens):
+    """The one class a residue pair must carry when nothing competes for the atoms involved, else None.
+
+    Contacts = base donor atoms of donor_res within 4.0 A of the given oxygens of acceptor_res. The annotator lets every atom take part in one contact only,
+    so which contacts are realised is unambiguous exactly when every donor atom involved touches no other phosphate / ribose oxygen of any other residue and
+    every oxygen involved is touched by no other base donor atom; then each contact contributes its own class and the merge rules (3 and 5 -> 4, 7 and 9 -> 8)
+    give one class. Anything within 1e-6 of the 4.0 A cut-off or of the +-90 degree class boundary makes the pair undecided (None)."""
+    contacts = []
+    for dn in DONORS.get(donor_res.letter, []):
+        if dn not in donor_res.atoms:
+            continue
+        for on in oxygens:
+            if on not in acceptor_res.atoms:
+                continue
+            d = float(np.linalg.norm(donor_res.atoms[dn] - acceptor_res.atoms[on]))
+            if abs(d - HB_MAX) <= 1e-6:
+                return None
+            if d < HB_MAX:
+                contacts.append((dn, on))
+    if not contacts:
+        return None
+    alloxy = tuple(PHOSPHATE_O) + tuple(RIBOSE_O)
+    for dn in {c[0] for c in contacts}:
+        n = 0
+        for r in all_res:
+            if r is donor_res:
+                continue
+            for on in alloxy:
+                if on in r.atoms and float(np.linalg.norm(donor_res.atoms[dn] - r.atoms[on])) <= HB_MAX + 1e-6:
+                    n += 1
+        if n != 1:
+            return None
+    for on in {c[1] for c in contacts}:
+        n = 0
+        for r in all_res:
+            if r is acceptor_res:
+                continue
+            for dn in DONORS.get(r.letter, []):
+                if dn in r.atoms and float(np.linalg.norm(r.atoms[dn] - acceptor_res.atoms[on])) <= HB_MAX + 1e-6:
+                    n += 1
+        if n != 1:
+            return None
+    S = set()
+    for dn, on in contacts:
+        c = bph_class(donor_res, dn, acceptor_res.atoms[on])
+        if not c or len(c) != 1:
+            return None
+        S |= c
+    if len(S) == 1:
+        return next(iter(S))
+    if S == {3, 5}:
+        return 4
+    if S == {7, 9}:
+        return 8
+    return None
+
+
 # ---------------------------------------------------------------------------------------------
 # stacking (C04)
 
